@@ -3,12 +3,13 @@
 import json, os, shutil, subprocess, sys
 ROOT = os.path.dirname(os.path.dirname(os.path.abspath(__file__)))
 SRC = sys.argv[1] if len(sys.argv) > 1 else "/tmp/wt/out"
+TAG = sys.argv[2] if len(sys.argv) > 2 else ""
 for prop in sorted(os.listdir(SRC)):
     for i in sorted(os.listdir(os.path.join(SRC, prop))):
         d = os.path.join(SRC, prop, i)
         if not all(os.path.exists(os.path.join(d, f)) for f in ("patch.diff", "demo.py", "meta.json")):
             continue
-        dest = os.path.join(ROOT, "seeded", f"{prop}-{i}")
+        dest = os.path.join(ROOT, "seeded", f"{prop}-{TAG}{i}")
         if os.path.exists(dest):
             continue
         p = subprocess.run([os.path.join(ROOT, "tools", "seedtest.py"), d, "--checks", prop], capture_output=True, text=True)
@@ -17,7 +18,7 @@ for prop in sorted(os.listdir(SRC)):
         except Exception:
             print(prop, i, "seedtest failed", (p.stdout + p.stderr)[-200:]); continue
         ok = r.get("applied") and r.get("repo_tests_pass_with_patch") and r.get("demo_fails_with_patch") and r.get("demo_passes_without_patch")
-        print(f"{prop}-{i}: confirmed={bool(ok)} caught_by={r.get('caught_by')} exit={ {c: v['exit'] for c, v in r.get('checks', {}).items()} } sig={[v['signatures'][:2] for v in r.get('checks', {}).values()]}", flush=True)
+        print(f"{prop}-{TAG}{i}: confirmed={bool(ok)} caught_by={r.get('caught_by')} exit={ {c: v['exit'] for c, v in r.get('checks', {}).items()} } sig={[v['signatures'][:2] for v in r.get('checks', {}).values()]}", flush=True)
         if not ok:
             print("   not kept:", {k: r.get(k) for k in ("applied", "repo_tests_pass_with_patch", "demo_fails_with_patch", "demo_passes_without_patch", "error")})
             continue
